@@ -1499,8 +1499,8 @@ def r7(ctx):
             continue
         mod = ctx.index.module(m.relpath)
         for fi in ctx.index.all_functions(mod):
-            for c in calls_in(fi.node):
-                if isinstance(c.func, ast.Attribute) and c.func.attr == "_apply_params_to_element" and c.args:
+            for c in ast.walk(fi.node):
+                if isinstance(c, ast.Call) and isinstance(c.func, ast.Attribute) and c.func.attr == "_apply_params_to_element" and c.args:
                     sites.append((fi, c))
     ctx.require(len(sites) >= 2, f"expected at least two sites that re-apply parameters to cached loader criteria, found {len(sites)}")
     for fi, c in sites:
@@ -1552,12 +1552,8 @@ def r7(ctx):
                   + (", lambda case split off" if split else ""), loc(fi, c))
 
 
-_R7_A = ("        k1 = orig_query._generate_cache_key()\n        k2 = current_query._generate_cache_key()\n\n        return k2._apply_params_to_element(k1, and_(*self._extra_criteria))\n")
-SOPT = "orm/strategy_options.py"
-R.mutant("benign-r7-lambda-case-split-off", SOPT,
-         chain(sub(_R7_A, "        if current_query._is_lambda_element:\n            lk = current_query._generate_cache_key()\n            return sql_elements_override(lk, and_(*self._extra_criteria))\n" + _R7_A),
-               sub("        orig_cache_key = orig_query._generate_cache_key()\n        assert orig_cache_key is not None\n",
-                   "        orig_cache_key = orig_query._generate_cache_key()\n        assert orig_cache_key is not None\n        if context.user_passed_query._is_lambda_element:\n            return self\n")), None)
+# no R.mutant for C17-R7 yet: both sites fire on the unchanged tree (genuine defect, findings/C17_obs_selectinload_and_two_closure_literals_swapped.py);
+# with findings/C17_loader_criteria_lambda_params_by_key.fix.diff applied the rule is silent, and reverting either hunk of it is the breaking mutant.
 
 
 # ---------------------------------------------------------------------- C17-R6: classification is exhaustive
